@@ -27,6 +27,7 @@ import (
 
 	"seehuhn.de/go/membudget"
 	"seehuhn.de/go/pdf"
+	"seehuhn.de/go/pdf/internal/filter/jbig2"
 	"seehuhn.de/go/pdf/internal/filter/predict"
 	"seehuhn.de/go/pdf/internal/limits"
 	"seehuhn.de/go/pdf/verifharness/common"
@@ -1131,6 +1132,13 @@ func main() {
 	}
 
 	phase("corpus+budget")
+	for _, n := range []int64{math.MinInt64, -1, 0, 1, 114687, 114688, 114689, 1 << 26, 1 << 40, math.MaxInt64} {
+		h.both(h.id("b"), fmt.Sprintf("B2 %d", n), fmt.Sprint(jbig2.VerifWorkLimit(n)))
+	}
+	for i := 0; i < 100; i++ {
+		n := g.r.Int64() >> uint(g.intn(64))
+		h.both(h.id("b"), fmt.Sprintf("B2 %d", n), fmt.Sprint(jbig2.VerifWorkLimit(n)))
+	}
 	// -- GetFilters: every chain over {AHx, Crypt, Foo, non-name} up to length 3 with every
 	//    parameter shape, every length 0..11, Crypt at every index
 	alpha := []string{"AHx", "Crypt", "Unk", "x"}
